@@ -83,9 +83,10 @@ func c07(c *Ctx) {
 			okBin = okBin && !s[g.Exit]
 		}
 		c.Check(okBin, "R1", "aggregate|(*histValues).measure|b.bin(idx, value) on every path", at(ax.M, fn.Pos()), "every measurement is binned once with the searched index", "a measurement is not binned, or binned with another index")
-		// newBuckets(attr, len(bounds)+1)
+		// newBuckets(attr, len(bounds)+1) — in measure or in the look-up-or-create helper it calls
+		newFn, newPM := ax.workFunc(fn, func(n ast.Node) bool { call, ok := n.(*ast.CallExpr); return ok && callToDecl(info, nb)(call) })
 		okN := false
-		inspectNoLit(fn.Body(), func(n ast.Node) bool {
+		inspectNoLit(newFn.Body(), func(n ast.Node) bool {
 			if call, ok := n.(*ast.CallExpr); ok && callToDecl(info, nb)(call) && len(call.Args) == 2 {
 				if be, ok := unparen(call.Args[1]).(*ast.BinaryExpr); ok && be.Op == token.ADD {
 					one, isC := constInt(info, be.Y)
@@ -104,14 +105,15 @@ func c07(c *Ctx) {
 		// min,max = value,value for a new series
 		okMM := false
 		fMin, fMax := lookupField(ax.Pkg, "buckets", "min"), lookupField(ax.Pkg, "buckets", "max")
-		for _, x := range g.Nodes {
+		valNew := newPM(val) // the measured value as the creating function knows it
+		for _, x := range ax.FG(newFn).Nodes {
 			as, ok := x.N.(*ast.AssignStmt)
 			if !ok {
 				continue
 			}
 			mn, mxx := false, false
 			for i, l := range as.Lhs {
-				if len(as.Lhs) == len(as.Rhs) && sameVar(info, as.Rhs[i], val) {
+				if len(as.Lhs) == len(as.Rhs) && valNew != nil && sameVar(info, as.Rhs[i], valNew) {
 					if isField(info, l, fMin) {
 						mn = true
 					}
